@@ -36,6 +36,12 @@ def worker_plan(c, ncases):
                   'mk.aead scheme=aead128 obj=1003 n=%s ad=- m=%s tape=rand tapedata=%s' % (n, hx(pattern(rng, 9)), hx(pattern(rng, 8, 'rand'))),
                   'mk.aead scheme=aead80pq obj=1004 n=%s ad=%s m=%s tape=rand tapedata=%s' % (n, hx(b'ab'), hx(pattern(rng, 17)), hx(pattern(rng, 8, 'rand'))),
                   'mk.op name=extract bits=128 obj=1003']
+    # keys, salts and passwords of every length class of the HMAC key block (the caller's buffers are read-only pages)
+    for kl in (0, 16, 32, 33, 48, 64, 65, 100):
+        k = hx(pattern(rng, kl, 'rand'))
+        lines += ['os.hmac kind=%s key=%s in=%s' % (rng.choice(['hmac', 'hmaca']), k, hx(pattern(rng, 9))),
+                  'os.hkdf kind=hkdf key=%s salt=%s info=- n=16' % (hx(pattern(rng, 16)), k),
+                  'os.pbkdf2 kind=pbkdf2_hmac pw=%s salt=%s count=2 n=20' % (k, hx(pattern(rng, 8)))]
     if rng.random() < 1.0:
         lines += ['isapkey.enc scheme=isap128 obj=1001 n=%s ad=- in=0102' % hx(pattern(rng, 16)), 'isapkey.enc scheme=isap80pq obj=1002 n=%s ad=- in=03' % hx(pattern(rng, 16))]
     return lines
@@ -61,6 +67,7 @@ def threaded_run(c, flavour, lines, nthreads, repeat, name, env=None, drv=None):
         open(rd + '/replay.sh', 'w').write('#!/bin/sh\n/verif/tools/build.sh %s && TSAN_OPTIONS=exitcode=97:halt_on_error=1 /verif/.build/drv/%s/drv %s/plan.txt /tmp/c16.trace %d %d\n' % (flavour, flavour, rd, nthreads, repeat))
         m = re.search(r'(WARNING: ThreadSanitizer: [^\n]*)(.*?)(Location is [^\n]*|SUMMARY[^\n]*)', out, re.S)
         what = (m.group(1) + ' ' + m.group(3)) if m else out[-300:]
+        if rc == 3 and not m: what = 'the driver was killed by a signal: a store to memory the library may only read (a const input in read-only pages, a shared object while the threads run) or a wild access'
         gl = re.search(r"global '([^']+)'", out)
         c.violation('race:' + (gl.group(1) if gl else flavour), 'multi-threaded run failed (rc=%d): %s' % (rc, what[:400]), rd)
         return
@@ -127,12 +134,14 @@ def run(c):
                       'every thread runs the same workload on private objects and on shared read-only ISAP / masked keys; each thread trace (prefixed with the shared prologue) must be accepted by Trace.tla',
                       'the assumption "no mutable state outside the objects" is bound by scanning the built static library for writable data symbols']
     elf_scan(c, ['rel', 'c64', 'c32', 'dxor'])
-    build_many(['rel', 'tsan', 'tsan+c64'] + (['tsan+c32', 'tsan+dxor', 'c32'] if th else []))
+    build_many(['rel', 'tsan', 'tsan+c64', 'ks3+ds2'] + (['tsan+c32', 'tsan+dxor', 'c32'] if th else []))
     lines = worker_plan(c, 60 if th else 30)
     c.distinct([('line', i) for i in range(len(lines))])
     threaded_run(c, 'rel', lines, 8, 20 if th else 6, 'mt')
     threaded_run(c, 'tsan', lines, 6, 3 if th else 1, 'mt')
     threaded_run(c, 'tsan+c64', lines, 6, 2 if th else 1, 'mt')
+    # a share configuration with unused share slots in the key objects; the shared objects are read-only while the threads run
+    threaded_run(c, 'ks3+ds2', lines, 6, 1, 'mt')
     if th:
         for fl in ('tsan+c32', 'tsan+dxor', 'c32'):
             threaded_run(c, fl, lines, 8, 3, 'mt')
